@@ -5538,7 +5538,7 @@ func (t *Terminal) Loop() error {
 				before := t.offset
 				t.constrain()
 				if before != t.offset {
-					t.offset = before
+					t.offset = util.Constrain(before, 0, t.merger.Length())
 					if t.layout == layoutReverse {
 						diff *= -1
 					}
